@@ -13,7 +13,10 @@
    Names are sequences of labels, absolute names end with "".
 
    One resolver, one clock, a sequence of resolutions sharing the resolver's cache.
-   The environment chooses, for every query, an outcome and a clock advance.
+   The environment chooses, for every query, an outcome and a clock advance.  It may set
+   the clock back (at most MaxBack times per resolution), but only for a resolver without
+   a cache: what a cache may do with an entry that was expired and becomes unexpired again
+   is not part of this property (the caches are C17).
 
    Outcome of one query (all fields always present):
      [k |-> "exc", x |-> "Timeout" | "FormError" | "EOF" | "OSError" | "NotImpl" | "Truncated" | "Other", ...]
@@ -41,7 +44,7 @@ CONSTANTS Configs,        \* set of resolver configurations (records, see below)
 VARIABLES cfg,         \* the resolver's configuration (fixed during a behaviour)
           now,         \* the clock
           cache,       \* the resolver's cache: <<name, type>> -> entry
-          phase,       \* "idle" | "request" | "server" | "sleep" | "timeout" | "query" | "done"
+          phase,       \* "idle" | "rest" (a resolution just ended) | "request" | "server" | "sleep" | "timeout" | "query" | "done"
           allCands,    \* candidate names of the running resolution, in order
           cands,       \* candidates not yet started
           qn,          \* current candidate
@@ -55,7 +58,6 @@ VARIABLES cfg,         \* the resolver's configuration (fixed during a behaviour
           start, life, \* start time and lifetime of the running resolution
           tmo,         \* timeout of the query being issued
           nx,          \* candidates for which NXDOMAIN was obtained
-          errors,      \* what went wrong for this candidate: Seq([srv, tcp, oc])
           broken,      \* history: servers dropped for this candidate
           last,        \* history: verdict on the last reply ("-" before any)
           nxCount,     \* history: candidates (positions of allCands) concluded with NXDOMAIN
@@ -64,10 +66,10 @@ VARIABLES cfg,         \* the resolver's configuration (fixed during a behaviour
           nres, nq, backs   \* counters: resolutions started, queries / clock set-backs in this resolution
 
 vars == <<cfg, now, cache, phase, allCands, cands, qn, usable, cur, round, server, tcpAttempt, retryTcp,
-          backoffIdx, start, life, tmo, nx, errors, broken, last, nxCount, queried, result, nres, nq, backs>>
+          backoffIdx, start, life, tmo, nx, broken, last, nxCount, queried, result, nres, nq, backs>>
 
 candv == <<allCands, cands, qn, nx, nxCount>>
-srvv  == <<usable, cur, round, server, tcpAttempt, retryTcp, backoffIdx, errors, broken>>
+srvv  == <<usable, cur, round, server, tcpAttempt, retryTcp, backoffIdx, broken>>
 timev == <<start, life, tmo>>
 ctrv  == <<nres, nq, backs>>
 
@@ -130,18 +132,19 @@ EntryOf(o, t) ==
                ELSE <<"rr", o.ans[r.answer].n, o.ans[r.answer].ty, o.ans[r.answer].ttl>>]
 
 ---------------------------------------------------------------------------
-Init ==
-    /\ cfg \in Configs /\ now \in StartTimes
+InitRest ==
     /\ cache = <<>> /\ phase = "idle"
     /\ allCands = <<>> /\ cands = <<>> /\ qn = <<>> /\ nx = {} /\ nxCount = 0
     /\ usable = {} /\ cur = {} /\ round = 0 /\ server = 0 /\ tcpAttempt = FALSE /\ retryTcp = FALSE
-    /\ backoffIdx = 1 /\ errors = <<>> /\ broken = {}
+    /\ backoffIdx = 1 /\ broken = {}
     /\ start = 0 /\ life = 0 /\ tmo = 0
     /\ last = "-" /\ queried = {} /\ result = <<"none">> /\ nres = 0 /\ nq = 0 /\ backs = 0
 
+Init == cfg \in Configs /\ now \in StartTimes /\ InitRest
+
 (* resolve(qname, search=sflag, lifetime=lifeArg) is called; lifeArg = 0: the resolver's lifetime *)
 Begin(q, sflag, lifeArg) ==
-    /\ phase = "idle"
+    /\ phase \in {"idle", "rest"}
     /\ allCands' = QnamesToTry(q, sflag, cfg) /\ cands' = allCands' /\ nx' = {} /\ nxCount' = 0
     /\ start' = now /\ life' = IF lifeArg = 0 THEN cfg.life ELSE lifeArg
     /\ result' = <<"none">> /\ last' = "-" /\ nres' = nres + 1 /\ nq' = 0 /\ backs' = 0
@@ -149,8 +152,8 @@ Begin(q, sflag, lifeArg) ==
     /\ UNCHANGED <<cfg, now, cache, qn, srvv, tmo, queried>>
 
 Advance(d) ==
-    /\ phase = "idle" /\ now' = now + d
-    /\ UNCHANGED <<cfg, cache, phase, candv, srvv, timev, ctrv, last, queried, result>>
+    /\ phase = "rest" /\ now' = now + d /\ phase' = "idle"
+    /\ UNCHANGED <<cfg, cache, candv, srvv, timev, ctrv, last, queried, result>>
 
 (* take the next candidate; consult the cache; arm the full server list *)
 NextRequest ==
@@ -171,7 +174,7 @@ NextRequest ==
                      /\ nx' = nx \cup {c} /\ nxCount' = nxCount + 1 /\ phase' = "request"
                      /\ UNCHANGED <<result, srvv>>
                   ELSE
-                     /\ usable' = Servers /\ cur' = Servers /\ round' = 1 /\ broken' = {} /\ errors' = <<>>
+                     /\ usable' = Servers /\ cur' = Servers /\ round' = 1 /\ broken' = {}
                      /\ retryTcp' = FALSE /\ tcpAttempt' = FALSE /\ backoffIdx' = 1 /\ phase' = "server"
                      /\ UNCHANGED <<result, nx, nxCount, server>>
     /\ UNCHANGED <<cfg, now, cache, timev, ctrv, last, queried>>
@@ -180,7 +183,7 @@ NextRequest ==
 RetryTcp ==
     /\ phase = "server" /\ retryTcp
     /\ tcpAttempt' = TRUE /\ retryTcp' = FALSE /\ phase' = "timeout"
-    /\ UNCHANGED <<cfg, now, cache, candv, usable, cur, round, server, backoffIdx, errors, broken, timev, ctrv,
+    /\ UNCHANGED <<cfg, now, cache, candv, usable, cur, round, server, backoffIdx, broken, timev, ctrv,
                    last, queried, result>>
 
 (* no server left at all *)
@@ -193,21 +196,21 @@ GiveUp ==
 Rearm ==
     /\ phase = "server" /\ ~retryTcp /\ cur = {} /\ usable # {}
     /\ cur' = usable /\ round' = round + 1 /\ phase' = "sleep"
-    /\ UNCHANGED <<cfg, now, cache, candv, usable, server, tcpAttempt, retryTcp, backoffIdx, errors, broken, timev,
+    /\ UNCHANGED <<cfg, now, cache, candv, usable, server, tcpAttempt, retryTcp, backoffIdx, broken, timev,
                    ctrv, last, queried, result>>
 
 MaxSleep == 2 * TicksPerSec
 Sleep(d) ==
     /\ phase = "sleep" /\ d >= 1 /\ d <= MaxSleep
     /\ now' = now + d /\ backoffIdx' = Min(backoffIdx + 1, Len(BackoffTable)) /\ phase' = "server"
-    /\ UNCHANGED <<cfg, cache, candv, usable, cur, round, server, tcpAttempt, retryTcp, errors, broken, timev, ctrv,
+    /\ UNCHANGED <<cfg, cache, candv, usable, cur, round, server, tcpAttempt, retryTcp, broken, timev, ctrv,
                    last, queried, result>>
 
 (* any server not yet asked in this round (the order inside a round is not prescribed) *)
 Pick(s) ==
     /\ phase = "server" /\ ~retryTcp /\ s \in cur
     /\ server' = s /\ cur' = cur \ {s} /\ tcpAttempt' = cfg.tcp /\ phase' = "timeout"
-    /\ UNCHANGED <<cfg, now, cache, candv, usable, round, retryTcp, backoffIdx, errors, broken, timev, ctrv,
+    /\ UNCHANGED <<cfg, now, cache, candv, usable, round, retryTcp, backoffIdx, broken, timev, ctrv,
                    last, queried, result>>
 
 (* the budget of the next query; a clock set back by more than a second may also end the resolution *)
@@ -228,11 +231,8 @@ Query(o, d) ==
     /\ now' = now + d /\ nq' = nq + 1 /\ backs' = (IF d < 0 THEN backs + 1 ELSE backs)
     /\ queried' = queried \cup {qn}
     /\ LET v == Verdict(o)
-           oc == IF o.k = "exc" THEN o.x ELSE o.rcode
            e == EntryOf(o, now + d)
        IN /\ last' = v
-          /\ errors' = IF v \in {"drop", "keep", "retrytcp", "yxdomain"}
-                       THEN Append(errors, [srv |-> server, tcp |-> tcpAttempt, oc |-> oc]) ELSE errors
           /\ usable' = IF v = "drop" THEN usable \ {server} ELSE usable
           /\ broken' = IF v = "drop" THEN broken \cup {server} ELSE broken
           /\ retryTcp' = (v = "retrytcp")
@@ -253,7 +253,7 @@ Query(o, d) ==
 
 (* resolve() returns / raises *)
 Finish ==
-    /\ phase = "done" /\ phase' = "idle"
+    /\ phase = "done" /\ phase' = "rest"
     /\ UNCHANGED <<cfg, now, cache, candv, srvv, timev, ctrv, last, queried, result>>
 
 SleepChoices == {BackoffTable[backoffIdx]}
@@ -262,7 +262,7 @@ Step ==      \* everything that happens inside one resolution
     \/ NextRequest \/ RetryTcp \/ GiveUp \/ Rearm \/ (\E d \in SleepChoices : Sleep(d))
     \/ (\E s \in cur : Pick(s)) \/ Expire \/ Budget
     \/ (nq < MaxQ /\ \E o \in Outcomes(qn, cfg.qtype) : \E d \in Advances(tmo, life) :
-            (d < 0 => backs < MaxBack) /\ Query(o, d))
+            (d < 0 => (backs < MaxBack /\ ~UseCache)) /\ Query(o, d))
     \/ Finish
 
 Next ==
@@ -275,7 +275,7 @@ FairSpec == Spec /\ WF_vars(Step)
 
 ---------------------------------------------------------------------------
 (* Properties *)
-Phases == {"idle", "request", "server", "sleep", "timeout", "query", "done"}
+Phases == {"idle", "rest", "request", "server", "sleep", "timeout", "query", "done"}
 TypeOK ==
     /\ phase \in Phases /\ cur \subseteq usable /\ usable \subseteq Servers
     /\ tcpAttempt \in BOOLEAN /\ retryTcp \in BOOLEAN
